@@ -19,6 +19,7 @@ pub fn pool_case(data: &[u8]) -> Option<PoolCase> {
         req_timeout_ms: None,
         open_is_ready: true,
         caller_host: 0,
+        single_use: false,
     };
     let mut ops = vec![];
     while !u.is_empty() && ops.len() < 160 {
